@@ -62,8 +62,8 @@ CLAIMED = {
                 'the exit test alone, the WGS-84 + GMST reconstruction of (lon,lat,alt) equals (A/XKMPER) x position within A*2e-12 km per component (Lipschitz bounds '
                 "by MVT), with A/XKMPER-1 < 3.2e-7 inside the property's 2e-6; observer_position is exactly the WGS-84 geodetic->ECI map with velocity = earth-rotation"
                 ' x position; method and module function are the same real function; local time = UTC + lon/15 h; the loop TERMINATES: for every position at least '
-                '6378.135 km from the centre and off the polar axis the iteration is a contraction (factor < 0.0069) and the exit test succeeds at the fifth test at '
-                'the latest (Coquelicot MVT), so some exit is taken and its result satisfies the round trip',
+                '6355.8 km from the centre (on or outside the ellipsoid) and off the polar axis the iteration is a contraction (factor < 0.0069) and the exit test '
+                'succeeds at the fifth test at the latest (Coquelicot MVT), so some exit is taken and its result satisfies the round trip',
         "design_ref": 'DESIGN.md 5/C04',
         "note": 'trusted: Coq kernel, stdlib real axioms (+ classic/funext via Coquelicot, Uint63/float primitives via Interval), translator (self-checked each run: '
                 'binary64 DAG evaluation and Coq-Interval point evaluation against the interpreter). Paths beyond 6 loop iterations are outside the model and proved '
@@ -101,7 +101,9 @@ CLAIMED = {
         "text": 'Coq theorems over the regenerated model of the compute_pixels core and ScanGeometry.vectors: the pixel lies exactly on WGS-84, on the ray at the '
                 'smaller of the only two roots and in front of the satellite; horizon inequality; an intersection exists iff discriminant >= 0; unit view vectors; zero'
                 ' angles give nadir; roll and pitch add; yaw leaves the off-nadir angle unchanged; closed-form across/along-track sense; exit of the NaN-tolerant '
-                "vectorised loop (pre-fix loop refuted). Sub-point conversion range/round trip come from C04's theorems",
+                'vectorised loop (pre-fix loop refuted), whose per-pixel hypothesis is discharged: for a pixel on the ellipsoid off the polar axis the latitude '
+                "iteration of geoloc.get_lonlatalt exits by its fifth test (C07_pixel_conversion_terminates, from C04's contraction). Sub-point conversion range/round "
+                "trip come from C04's theorems",
         "design_ref": 'DESIGN.md 5/C07',
         "note": 'the NaN <-> miss link, nadir 0.2 deg, the 1e-9 / 10 m tolerances, 2-D shapes and get_lonlatalt termination are validated by the oracle (hit/miss '
                 'decided in exact rationals). Orbital.get_position is taken as the state source. M_VecLoop.v is hand-written from geoloc.py:54-59,197-202',
